@@ -52,6 +52,7 @@ def build(chk):
         # ---- run A: reals, open at 0 (definedness obligations on), closed at 1 ------------------------------
         _, resA, _ = biv.run_method(fam, 'cumulative_distribution')
         biv.crosscheck(chk, fam, 'cumulative_distribution', resA)
+        biv.int_theta_obs(chk, 'C06', fam, 'cumulative_distribution', 'cdf', resA)
         # ---- run B: the closed square including 0 (no definedness obligations: Gumbel uses log 0 = -inf) ----
         closed_safe = fam in ('clayton', 'frank')
         _, resB, _ = biv.run_method(fam, 'cumulative_distribution', closed_at_zero=True, safety=closed_safe)
